@@ -320,7 +320,7 @@ Lemma dn_main idx junk n :
                   (SIf
                      (IOr (ICmp CLt (IVar "idxcell") (IConst 0))
                         (ICmp CGe (IVar "idxcell") (IBin IMul (IVar "nrows") (IVar "ncols"))))
-                     (SRetI (IBin IAdd (IConst 50000) (IConst 361))) SSkip)
+                     (SRetI (IBin IAdd (IConst 50000) (IConst 1))) SSkip)
                   (SSeq
                      (SCall DNone "c_neighbours"
                         [AI (IVar "nrows"); AI (IVar "ncols"); AI (IVar "idxcell");
@@ -404,7 +404,7 @@ Proof.
         replace (Z.of_nat k + 1) with (Z.of_nat (S k)) by lia. reflexivity.
     + assert (Hv' := Hv). unfold valid_cell in Hv'. apply negb_false_iff in Hv'. rewrite Hv'.
       cbn. right.
-      exists done, c, todo, jdone, (j0 :: jtodo), j, fdv, ng, 50361.
+      exists done, c, todo, jdone, (j0 :: jtodo), j, fdv, ng, 50001.
       repeat (split; [first [reflexivity | assumption | lia]|]).
       unfold dn_state. rewrite zlen_eq, Hk. reflexivity.
 Qed.
@@ -652,7 +652,7 @@ Lemma up_main idx junk n :
                   (SIf
                      (IOr (ICmp CLt (IVar "idxcell") (IConst 0))
                         (ICmp CGe (IVar "idxcell") (IBin IMul (IVar "nrows") (IVar "ncols"))))
-                     (SRetI (IBin IAdd (IConst 50000) (IConst 304))) SSkip)
+                     (SRetI (IBin IAdd (IConst 50000) (IConst 1))) SSkip)
                   (SSeq
                      (SCall DNone "c_neighbours"
                         [AI (IVar "nrows"); AI (IVar "ncols"); AI (IVar "idxcell");
@@ -751,7 +751,7 @@ Proof.
       replace (Z.of_nat k + 1) with (Z.of_nat (S k)) by lia. reflexivity.
     + assert (Hv' := Hv). unfold valid_cell in Hv'. apply negb_false_iff in Hv'. rewrite Hv'.
       cbn. right.
-      exists done, c, todo, jdone, jtodo, j, kv, fdv, inb, ng, 50304.
+      exists done, c, todo, jdone, jtodo, j, kv, fdv, inb, ng, 50001.
       repeat (split; [first [reflexivity | assumption | lia]|]).
       unfold up_state. rewrite zlen_eq, Hk. reflexivity.
 Qed.
